@@ -524,8 +524,11 @@ Proof.
   - rewrite K in Hconns. cbn in *. eapply Forall_map_conn; eauto. cbn. intros c. apply ok_snapshot.
 Qed.
 
-Lemma disconnect_phase c : c_phase (disconnect c) = c_phase c.
-Proof. unfold disconnect, disconnect_client. destruct (c_insnap c); auto. destruct (c_closed c); auto. Qed.
+Lemma disconnect_phase c : c_phase (disconnect Current c) = c_phase c.
+Proof.
+  unfold disconnect, disconnect_client. destruct (c_insnap c); auto. destruct (c_closed c); auto.
+  destruct (c_wfail c); auto.
+Qed.
 
 Lemma pres_kdisconnect s (HI : Inv s) t s' : exec t KDisconnect s = Continue s' \/ exec t KDisconnect s = Halt s' -> Inv s'.
 Proof.
@@ -644,11 +647,13 @@ Qed.
    finding C36-3). *)
 Lemma shutdown_all_closed vers sched :
   KF_C36_silent_connection vers sched = false ->
+  KF_C36_disconnect_too_large vers sched = false ->
   close_called (final vers sched) = true -> quiescent (final vers sched) = true ->
   shutdown_complete (final vers sched) = true.
 Proof.
-  unfold KF_C36_silent_connection. intros Hsil Hcc Hq.
-  pose proof (existsb_false_forall _ _ Hsil) as Hns. rewrite Forall_forall in Hns. clear Hsil. pose proof (final_inv vers sched) as HI.
+  unfold KF_C36_silent_connection, KF_C36_disconnect_too_large. intros Hsil Htl Hcc Hq.
+  pose proof (existsb_false_forall _ _ Hsil) as Hns. rewrite Forall_forall in Hns. clear Hsil.
+  pose proof (existsb_false_forall _ _ Htl) as Hnt. rewrite Forall_forall in Hnt. clear Htl. pose proof (final_inv vers sched) as HI.
   remember (final vers sched) as s eqn:Hs. clear Hs.
   unfold quiescent in Hq. apply andb_prop in Hq. destruct Hq as [Hq Hh]. apply andb_prop in Hq. destruct Hq as [Ha Hk].
   rewrite forallb_forall in Hh.
